@@ -67,3 +67,55 @@ def canonical_order(mod, t):
     else:
         mt = mt[:len(t.root)]
     return sorted(mt, key=lambda x: min_tag(mod, x[0].type, x[1]))
+
+
+def distinct_violations(mod, t):
+    """X.680 distinct-tag rules for one SEQUENCE / SET / CHOICE node (members looked through untagged CHOICEs
+    and references). Returns list of (name_i, name_j) pairs that clash."""
+    bad = []
+    mt = member_tags(mod, t)
+    sets = [(m, outer_tags(mod, m.type, tg)) for m, tg in mt]
+    if t.kind in ('CHOICE', 'SET'):
+        for i in range(len(sets)):
+            for j in range(i + 1, len(sets)):
+                if sets[i][1] & sets[j][1]:
+                    bad.append((sets[i][0].name, sets[j][0].name))
+        return bad
+    if t.kind == 'SEQUENCE':
+        nroot = len(t.root)
+        optlike = [(m.optional or m.has_default or idx >= nroot) for idx, (m, _) in enumerate(sets)]
+        for i in range(len(sets)):
+            if not optlike[i]:
+                continue
+            for j in range(i + 1, len(sets)):
+                if sets[i][1] & sets[j][1]:
+                    bad.append((sets[i][0].name, sets[j][0].name))
+                if not optlike[j]:
+                    break
+    return bad
+
+
+def all_nodes(mod):
+    """every type node of the module (named types and inline members), depth first"""
+    out = []
+
+    def rec(t):
+        out.append(t)
+        if t.kind in ('SEQUENCE', 'SET'):
+            for m, _, _ in all_members(t):
+                rec(m.type)
+        elif t.kind == 'CHOICE':
+            for m in list(t.root) + list(t.adds):
+                rec(m.type)
+        elif t.kind in ('SEQUENCE OF', 'SET OF'):
+            rec(t.elem)
+    for t in mod.types.values():
+        rec(t)
+    return out
+
+
+def legal(mod):
+    for t in all_nodes(mod):
+        if t.kind in ('SEQUENCE', 'SET', 'CHOICE') and distinct_violations(mod, t):
+            return False
+    return True
